@@ -432,10 +432,10 @@ func c10Corpus(r *verifkit.Run) []c10Input {
 		add("multi_frame", s)
 	}
 	// honest but huge size prefixes (the up-front make([]byte, length)); few, because each costs an allocation
-	// (under the race runtime a 2 GiB allocation costs about a minute, so the quick tier stops at 256 MiB)
-	hugeLens := []uint32{0x10000000, 0x08000000, 0x0c000001}
+	// (zeroing + race shadow of a 2 GiB allocation costs up to a minute on a loaded box, so the quick tier stops at 128 MiB)
+	hugeLens := []uint32{0x08000000, 0x04000001}
 	if r.Thorough() {
-		hugeLens = append(hugeLens, 0x7fffffff, 0x40000000)
+		hugeLens = append(hugeLens, 0x7fffffff, 0x40000000, 0x10000000)
 	}
 	for _, l := range hugeLens {
 		b := bases[rng.Intn(len(bases))]
